@@ -1438,7 +1438,8 @@ class GeoboxTiles:
             poly = query
 
         if target_crs is not None and poly.crs != target_crs:
-            poly = poly.to_crs(target_crs, check_and_fix=True)
+            # edges that are straight in the CRS of the query bend in ours: add vertices first
+            poly = poly.to_crs(target_crs, resolution="auto", check_and_fix=True)
 
         yy, xx = self.range_from_bbox(poly.boundingbox)
         for idx in itertools.product(yy, xx):
